@@ -121,8 +121,11 @@ MUTATIONS = [
 
             Instruction::HandleLower {
                 handle: Handle::Borrow(_),''')]),
-    ("M10", "C05", "shared generator: MAX_FLAT_PARAMS 16 -> 17 (17 flat parameters passed directly)", [
-        (A, "const MAX_FLAT_PARAMS: usize = 16;", "const MAX_FLAT_PARAMS: usize = 17;")]),
+    # (abi.rs `MAX_FLAT_PARAMS 16 -> 17` was tried first: an EQUIVALENT mutant for the generated text -- wit-parser's
+    #  wasm_signature decides indirect parameters -- identical w.rs, every harness a cache hit)
+    ("M10", "C05", "shared generator (abi.rs): variant payload written at the discriminant's offset instead of the payload offset", [
+        (A, "                self.write_to_memory(ty, addr.clone(), payload_offset);",
+            "                self.write_to_memory(ty, addr.clone(), offset);")]),
     ("M11", "C05", "cast I64ToF32 keeps the high half (f32 payload read from the wrong half of a joined i64 slot)", [
         (L, '''        Bitcast::I64ToF32 => format!("f32::from_bits({operand} as u32)"),''',
             '''        Bitcast::I64ToF32 => format!("f32::from_bits(({operand} >> 32) as u32)"),''')]),
@@ -140,7 +143,7 @@ def sh(cmd, **kw):
     return subprocess.run(cmd, shell=isinstance(cmd, str), stdout=subprocess.PIPE, stderr=subprocess.STDOUT, text=True, **kw)
 
 
-PLAYBACK_FOR = {"M3", "M13"}   # concrete playback (slow: full trace + native build) only for these; Kani's verdict decides 'caught'
+PLAYBACK_FOR = {"M1", "M3"}   # concrete playback (slow: full trace + native build) only for these; Kani's verdict decides 'caught'
 
 
 def run_check(prop, tag):
